@@ -113,7 +113,7 @@ Definition faithful_ok (c : cfg) (m : mstate) (o : op) : bool :=
   | OpInsert n b d =>
       pos_ok n (if b then match byname_source c with ByCache => cached m n | ByEngine => actual (m_tabs m) n end
                 else None) d
-  | OpSave n a s d => match sat_plan c a s with SatInsert => pos_ok n None d | _ => true end
+  | OpSave n a s d => match sat_plan c (ahas n (m_tabs m)) a s with SatInsert => pos_ok n None d | _ => true end
   | OpReadPath p f => match alookup p (m_files m) with
                       | Some (CFull g t) => fmt_eqb f g && file_safe g t
                       | Some CPartial => false
@@ -172,7 +172,7 @@ Fixpoint walk (c : cfg) (residue : residue_fn) (m : mstate * views) (s : sstate 
   end.
 
 Definition check (c : cfg) (k : xcase) : string :=
-  walk c duckdb_residue (m_init, []) (s_init, []) (x_ops k) (x_obs k) (x_snaps k).
+  walk c (residue_of c) (m_init, []) (s_init, []) (x_ops k) (x_obs k) (x_snaps k).
 
 (** spec conformance: a PySpark recording against the spec alone (one character per step) *)
 Fixpoint walk_spec (s : sstate) (ops : list op) (io : list obs) : string :=
